@@ -70,6 +70,7 @@ class Interp:
         self.bounded_loops = []                  # loops handled by bounded unrolling (reported as bounded)
         self.executed = set()                    # repo functions inlined while executing the unit
         self.loop_index = []                     # symbolic index of the enclosing cut loop / quantified body
+        self.prefer_shadow = False               # containers of D are taken concretely per cell (no sub-loaders around)
         self.opaque = {}                         # python callable -> (name, [exception classes]): abstracted callees
         self.method_disciplines = {}
         self.unroll_bound = 3
